@@ -6,7 +6,8 @@
       spec : I <val> | F ref j | F cat k j*k | F add a b | F sub a b | F eq a b | F sum k j*k | F cnt k j*k
              | F idx r row col | F isum r1 r2 k (row col)*k
              | R <rows> <cols> j*(rows*cols)
-      op   : S i <val> | E i | M k (i <val>)*k  (set_value of a range / list of cells) | X k i*k  (evaluate of a list)
+      op   : S i <val> | E i | N  (an evaluate that fails at graph-build time: answers `!fail`, the model state is
+             unchanged — the failing cells are outside the model, see harness/props/c01.py) | M k (i <val>)*k  (set_value of a range / list of cells) | X k i*k  (evaluate of a list)
   Answer: one item per operation joined by ';' — the value returned by `evaluate` (scalar token, or `a:r:c v…` for a
   range; the values of an evaluated list joined by '&'), `ok`/`rej` for a `set_value` (rej = the address is not a value cell in the cell map: AssertionError).
   The model runs with the repaired equality test `typedEq`.  Trusted glue, not part of any theorem.
@@ -66,22 +67,25 @@ partial def takePairs : Nat → List String → Option (List (Nat × EV) × List
     some ((i, .sc v) :: ps, rest)
   | _, _ => none
 
-partial def parseOps : List String → Option (List (OpX EV))
+partial def parseOps : List String → Option (List (Option (OpX EV)))
   | [] => some []
+  | "N" :: rest => do
+    let ops ← parseOps rest
+    some (none :: ops)
   | "S" :: i :: v :: rest => do
     let ops ← parseOps rest
-    some (.op (.set (← i.toNat?) (.sc (← Val.dec? v))) :: ops)
+    some (some (.op (.set (← i.toNat?) (.sc (← Val.dec? v)))) :: ops)
   | "E" :: a :: rest => do
     let ops ← parseOps rest
-    some (.op (.eval (← a.toNat?)) :: ops)
+    some (some (.op (.eval (← a.toNat?))) :: ops)
   | "M" :: k :: rest => do
     let (ps, rest) ← takePairs (← k.toNat?) rest
     let ops ← parseOps rest
-    some (.setMany ps :: ops)
+    some (some (.setMany ps) :: ops)
   | "X" :: k :: rest => do
     let (js, rest) ← takeNats (← k.toNat?) rest
     let ops ← parseOps rest
-    some (.evalMany js :: ops)
+    some (some (.evalMany js) :: ops)
   | _ => none
 
 def encEV : EV → String
@@ -102,16 +106,17 @@ def accepted (wb : Workbook) (s : State EV) (i : Nat) : Bool :=
 /-- do all cells of a multi-cell write get written (no AssertionError)?  `built` is not changed by writes. -/
 def allAccepted (wb : Workbook) (s : State EV) (l : List (Nat × EV)) : Bool := l.all fun p => accepted wb s p.1
 
-def runOps (wb : Workbook) (f : Nat → (Nat → EV) → EV) : State EV → List (OpX EV) → List String
+def runOps (wb : Workbook) (f : Nat → (Nat → EV) → EV) : State EV → List (Option (OpX EV)) → List String
   | _, [] => []
-  | s, .op (.set i v) :: h =>
+  | s, none :: h => "!fail" :: runOps wb f s h
+  | s, some (.op (.set i v)) :: h =>
     (if accepted wb s i then "ok" else "rej") :: runOps wb f (setValue wb typedEq i v s) h
-  | s, .op (.eval a) :: h =>
+  | s, some (.op (.eval a)) :: h =>
     let r := evaluate wb f a s
     (if a < wb.n then encEV r.1 else "!unknown-node") :: runOps wb f r.2 h
-  | s, .setMany l :: h =>
+  | s, some (.setMany l) :: h =>
     (if allAccepted wb s l then "ok" else "rej") :: runOps wb f (setMany wb typedEq l s) h
-  | s, .evalMany l :: h =>
+  | s, some (.evalMany l) :: h =>
     let r := evalMany wb f l s
     (if l.all (· < wb.n) then "&".intercalate (r.1.map encEV) else "!unknown-node") :: runOps wb f r.2 h
 
